@@ -127,11 +127,12 @@ def one_case(acc, g, lib, rq, an, rc, shape, sid_len):
     info = {"pair": "%s.%s" % (lib, rq.__name__), "rc": rc if shape in ("rc", "both", "e-preset") else None, "er": shape in ("er", "both"),
             "shape": shape, "answer_has_sid": answer.has_avp("session_id_avp"), "sid_len": len(sid) if sid else None}
     if shape == "e-preset":
-        if (rc // 1000) in (3, 4, 5) and rc % 1000:
-            answer.header.set_error_bit(True)
-            info["e_preset"] = True
-        else:
-            info["shape"] = "rc"
+        # the handler hands over an answer that already has the E flag - set for this answer, or left over from an earlier
+        # use of the same object with another Result-Code: the flag that is *sent* follows the Result-Code that is sent
+        answer.header.set_error_bit(True)
+        info["e_preset"] = True
+        if not ((rc // 1000) in (3, 4, 5) and rc % 1000):
+            info["shape"] = "e-preset-on-non-error-code"
     wit = {"info": info, "request": rplan.describe(), "answer_args": sorted(aplan.kwargs), "request_wire": request.dump().hex(),
            "answer_wire_before": answer.dump().hex()}
     acc.evaluations += 1
